@@ -128,7 +128,9 @@ type verif17Env struct {
 
 	results [2]chan error
 	started [2]bool
-	cut     bool // exclude the window written up in FINDINGS.md
+	cut     bool // unused since the upstream fix (kept for the constructor signature)
+
+	onlyWindow bool // whitebox.go: keep only paths through the window of FINDINGS.md
 
 	tickDelay int  // 0: symbolic choice, >0: fixed seconds
 	completed bool // the remote peer delivered the pieces once
